@@ -181,6 +181,53 @@ pub fn c15(rep: &mut Report, cfg: &Cfg) {
             run_maxwait_program(rep, pat, fi as u64 * 100 + k + cfg.seed * 7919, prof);
         }
     }
+    // ---- (h) peripherals driven the way a guest drives them: stores to every on-chip register
+    // (all 256 values of the timer control registers, port DDR/DR, bus controller) interleaved with
+    // elapsed-state updates and pin changes
+    for round in 0..cfg.share(cfg.n(600, 20_000)) {
+        let mut cpu = Cpu::new();
+        let n = 20 + rng.below(60);
+        let mut trace: Vec<String> = vec![];
+        let mut panicked = None;
+        for k in 0..n {
+            let r = match rng.below(5) {
+                0 | 1 => {
+                    let a = match rng.below(4) {
+                        0 => 0xffff80 + rng.below(0x1a) as u32,
+                        1 => 0xfee000 + rng.below(0x30) as u32,
+                        2 => 0xffffd0 + rng.below(0x0b) as u32,
+                        _ => 0xffff20 + rng.below(0xca) as u32,
+                    };
+                    let v = if a == 0xffff80 && k < 2 { (round as u8).wrapping_add(k as u8) } else { rng.u8() };
+                    trace.push(format!("w{:x}={:02x}", a, v));
+                    std::panic::catch_unwind(std::panic::AssertUnwindSafe(|| {
+                        let _ = cpu.bus.write(a, v);
+                    }))
+                }
+                2 => {
+                    let (p, v) = (rng.below(14) as u8, rng.u8());
+                    trace.push(format!("pin{:x}={:02x}", p, v));
+                    std::panic::catch_unwind(std::panic::AssertUnwindSafe(|| cpu.bus.write_port(p, v)))
+                }
+                _ => {
+                    let s = *rng.pick(&[1u8, 2, 7, 8, 9, 64, 128, 254, 255]);
+                    trace.push(format!("e{}", s));
+                    std::panic::catch_unwind(std::panic::AssertUnwindSafe(|| {
+                        let _ = cpu.verif_update_modules(s);
+                    }))
+                }
+            };
+            if r.is_err() {
+                panicked = crate::util::take_panic();
+                break;
+            }
+        }
+        rep.evaluations += 1;
+        rep.cell("peripheral-history-profile", &[(round % 256) as u64, prof]);
+        if let Some(p) = panicked {
+            rep.finding(&format!("peripheral|{}", panic_sig(&p)), || format!("panic at {}:{}: {} after the register history {}", p.file, p.line, p.msg, trace.join(" ")), || format!("check=C15 kind=periph ops={}", trace.join(",")));
+        }
+    }
     // ---- (d) random programs and jumps to unmapped / odd targets through the real run()
     for _ in 0..cfg.share(cfg.n(400, 12_000)) {
         let seed = rng.next();
